@@ -81,10 +81,10 @@ Proof.
   - f_equal. apply HL. exact Hs.
   - f_equal. apply HL. exact Hs.
   - apply andb_true_iff in Hs. destruct Hs as [Hm Hc]. apply negb_true_iff in Hm.
-    rewrite <- (Hag _ Hm). destruct (lookup s h) as [[it|l]|]; try reflexivity; try discriminate.
+    rewrite <- (Hag _ Hm). destruct (lookup s h) as [[fac it|l]|]; try reflexivity; try discriminate.
     f_equal. apply HI. exact Hc.
   - apply andb_true_iff in Hs. destruct Hs as [Hm Hc]. apply negb_true_iff in Hm.
-    rewrite <- (Hag _ Hm). destruct (lookup s h) as [[it|l]|]; try reflexivity; try discriminate.
+    rewrite <- (Hag _ Hm). destruct (lookup s h) as [[fac it|l]|]; try reflexivity; try discriminate.
     + f_equal. apply HI. exact Hc.
     + f_equal. apply HL. exact Hc.
   - f_equal. apply HL. exact Hs.
@@ -186,11 +186,11 @@ Proof.
   - inversion H; reflexivity.
   - destruct (seq_opt (map (freeze f s) l)) eqn:E; [|discriminate]. inversion H; subst. simpl. eapply HL; eauto.
   - destruct (seq_opt (map (freeze f s) fs)) eqn:E; [|discriminate]. inversion H; subst. simpl. eapply HL; eauto.
-  - destruct (lookup s h) as [[it|l]|]; [| |discriminate].
+  - destruct (lookup s h) as [[fac it|l]|]; [| |discriminate].
     + match type of H with option_map _ ?x = _ => destruct x eqn:E end; [|discriminate].
       inversion H; subst. simpl. eapply HI; eauto.
     + destruct (seq_opt (map (freeze f s) l)) eqn:E; [|discriminate]. inversion H; subst. simpl. eapply HL; eauto.
-  - destruct (lookup s h) as [[it|l]|]; [| |discriminate].
+  - destruct (lookup s h) as [[fac it|l]|]; [| |discriminate].
     + match type of H with option_map _ ?x = _ => destruct x eqn:E end; [|discriminate].
       inversion H; subst. simpl. eapply HI; eauto.
     + destruct (seq_opt (map (freeze f s) l)) eqn:E; [|discriminate]. inversion H; subst. simpl. eapply HL; eauto.
@@ -217,10 +217,10 @@ Proof.
   - inversion H; reflexivity.
   - destruct (seq_opt (map (deepcopy f s) l)) eqn:E; [|discriminate]. inversion H; subst. simpl. eapply HL; eauto.
   - destruct (seq_opt (map (deepcopy f s) fs)) eqn:E; [|discriminate]. inversion H; subst. simpl. eapply HL; eauto.
-  - destruct (lookup s h) as [[it|l]|]; try discriminate.
+  - destruct (lookup s h) as [[fac it|l]|]; try discriminate.
     match type of H with option_map _ ?x = _ => destruct x eqn:E end; [|discriminate].
     inversion H; subst. simpl. eapply HI; eauto.
-  - destruct (lookup s h) as [[it|l]|]; [| |discriminate].
+  - destruct (lookup s h) as [[fac it|l]|]; [| |discriminate].
     + match type of H with option_map _ ?x = _ => destruct x eqn:E end; [|discriminate].
       inversion H; subst. simpl. eapply HI; eauto.
     + destruct (seq_opt (map (deepcopy f s) l)) eqn:E; [|discriminate]. inversion H; subst. simpl. eapply HL; eauto.
